@@ -383,7 +383,45 @@ impl Property for C16 {
         vd
     }
     fn sweeps(&self, _tier: Tier, _seed: u64) -> Vec<Box<dyn Sweep>> {
-        vec![Box::new(CaseMasks::new())]
+        vec![Box::new(CaseMasks::new()), Box::new(Alphabet)]
+    }
+}
+
+/// every ASCII letter, as first and as later character, in every kind of name position (macro names, parameters,
+/// macro variables, calls, labels, named arguments, open-code identifiers, formats, literal suffix neighbours): a
+/// letter-class table that misses one letter in one case shows here
+pub struct Alphabet;
+const ALPHA_TEMPLATES: &[&str] = &[
+    "%macro @ap(@x, @one=1, a@); %put &@x &a@; %mend @ap;",
+    "%@ap(@one=2, a@=3) %a@(1)",
+    "%let @v=1; %let a@=2; %put &@v &&@v.. &a@. &&a@&@v;",
+    "%@lbl: %goto @lbl; %a@: ;",
+    "data @d a@; @y=@f(a@); format @y @fmt8. $@c5. a@9.2; run;",
+    "%if &@v eq @q %then %do @i=1 %to 2; %end; %else %put @;",
+    "%local @ a@; %global / readonly @r=1; %symdel @v / nowarn;",
+    "%do %while(&@ ne a@); %end; %sysfunc(@fn(a@), @fmt.) %syscall @rt(a@);",
+    "%str(@ a@) %nrstr(&@ %a@) \"@ &@v %@ap() a@\" '@'n \"a@\"n",
+    "%put %upcase(@a) %scan(&@v, 1, @) %eval(@ + a@) %index(@a, a@);",
+    "proc @p data=@d(keep=@k a@); by @b; run; * @ a@; %* @ a@;",
+];
+impl Sweep for Alphabet {
+    fn name(&self) -> String {
+        format!("every ASCII letter as first and later character of every kind of name: {} templates x 26 letters, lower case vs upper case (the letter alone, and the whole text)", ALPHA_TEMPLATES.len())
+    }
+    fn chunks(&self) -> usize {
+        26
+    }
+    fn run_chunk(&self, chunk: usize, f: &mut dyn FnMut(Case)) {
+        let lo = (b'a' + chunk as u8) as char;
+        let up = lo.to_ascii_uppercase();
+        for t in ALPHA_TEMPLATES {
+            let base = t.replace('@', &lo.to_string());
+            f(Case::pair("alphabet", base.clone(), t.replace('@', &up.to_string())));
+            f(Case::pair("alphabet", base.clone(), base.to_ascii_uppercase()));
+        }
+    }
+    fn exhaustive(&self) -> bool {
+        true
     }
 }
 
